@@ -54,6 +54,11 @@ case "$cmd" in
     rm -rf "$WORK"/vcheck.setup* "$WORK/setup.c19"
     exit 0 ;;
   replay)
+    if grep -q '"kind": "process"' "$2" 2>/dev/null; then
+      # the replay of a died / non-terminating run is the run itself
+      pid=$(python3 -c "import json,sys; d=json.load(open(sys.argv[1])); print(d['property'], d['tier'])" "$2")
+      exec "$0" $pid
+    fi
     bin="$WORK/vcheck.replay.$$"
     build "$bin" || exit 2
     if grep -q '"property": "C03"' "$2" 2>/dev/null; then
@@ -86,5 +91,38 @@ esac
 # address-space cap: a runaway allocation must kill the check process, not the sandbox
 ulimit -v $((48*1024*1024)) 2>/dev/null
 
-"$D/vcheck" -prop "$id" -tier "$tier" -root "$ROOT" -out "$OUT"
-exit $?
+# Hard deadline. On the unchanged tree a quick run takes well under a minute and a thorough run
+# under 15 minutes; the deadline is 20-40 times that. A run that does not end by then, or a
+# process killed by a FATAL runtime error inside the code under test (stack overflow from
+# unbounded recursion, out of memory) - neither can be recovered like a panic - means the library
+# did not return a result for some input of the enumeration: that is reported as a violation
+# whose replay is the run itself. Internal errors of the harness (exit 2) stay exit 2.
+limit=1200; [ "$tier" = thorough ] && limit=14400
+limit=${VERIF_LIMIT:-$limit}
+timeout -k 10 "$limit" "$D/vcheck" -prop "$id" -tier "$tier" -root "$ROOT" -out "$OUT" 2>"$D/stderr"
+rc=$?
+cat "$D/stderr" >&2
+reason=""
+if [ $rc -eq 124 ] || [ $rc -eq 137 ]; then
+  reason="the check did not finish within ${limit}s (the library did not return for some input: non-terminating loop?)"
+elif [ $rc -ne 0 ] && [ $rc -ne 1 ] && grep -qE "^fatal error: (stack overflow|runtime: out of memory)|goroutine stack exceeds" "$D/stderr" \
+     && ! grep -qE "harness:|^panic: mc:" "$D/stderr"; then
+  reason="the check process died with a fatal runtime error inside the code under test: $(grep -m1 -E '^fatal error|goroutine stack exceeds' "$D/stderr")"
+fi
+if [ -n "$reason" ]; then
+  rp="$OUT/replays/$id-process-$tier.json"
+  python3 - "$rp" "$id" "$tier" "$reason" "$D/stderr" <<'PY'
+import json, sys
+rp, pid, tier, reason, errf = sys.argv[1:6]
+tail = open(errf, errors='replace').read()[-3000:]
+json.dump({"property": pid, "kind": "process", "class": "process", "tier": tier,
+           "case": {"command": "/verif/check.sh %s %s" % (pid, tier)},
+           "got": reason, "want": "the check runs to completion",
+           "stderr_tail": tail,
+           "how_to_replay": ["/verif/check.sh replay " + rp + "   (re-runs the whole check)"]}, open(rp, "w"), indent=1)
+PY
+  echo "VIOLATION property=$id replay=$rp"
+  echo "  $reason"
+  exit 1
+fi
+exit $rc
